@@ -339,6 +339,11 @@ class Excl:
                             cp = a.detail[len("closure "):]
                             if self.facts.has(cp):
                                 filters.append(self.facts.body(cp))
+                        elif a.kind == "const" and a.op is not None and a.op.is_const and a.op.const.get("fn"):
+                            # `.filter(named_predicate)`: a function item used as the predicate
+                            fp = a.op.const["fn"]
+                            if self.facts.has(fp):
+                                filters.append(self.facts.body(fp))
                 if t.callee == "std::iter::Iterator::collect":
                     ty = (t.argtys[0] if t.argtys else "")
                     # only closures sitting in a Filter<..> shell reject elements
